@@ -73,7 +73,7 @@ class CacheProp(Prop):
             if not ok:
                 raise RuntimeError("race harness does not build: " + log[-800:])
         if ctx.tier == "quick":
-            rounds, ops = (5, 700) if self.stress_race else (4, 500)
+            rounds, ops = (5, 700) if self.stress_race else (5, 1500)
         else:
             rounds, ops = 60, 2500
         env = {"VERIF_STRESS": "1", "VERIF_SEED": str(ctx.seed + 1), "VERIF_STRESS_ROUNDS": str(rounds),
@@ -94,5 +94,17 @@ class CacheProp(Prop):
                 fails.append(("concurrent stress: " + out[i:i + 300].splitlines()[0], hdr + out[max(0, i - 200):i + 2500]))
         if not fails and "hang" in self.stress_kinds and (rc != 0 or not m) and not re.search(r"stress (\w+):", out):
             fails.append(("concurrent stress did not complete (rc=%d)" % rc, hdr + out[-3000:]))
+        if "sweeprace" in self.stress_kinds:
+            env2 = {"VERIF_STRESS": "1", "VERIF_RACE_ROUNDS": "20000" if ctx.tier == "quick" else "400000"}
+            rc2, out2 = core.run_harness("root", os.devnull, os.devnull, race=False, timeout=900,
+                                         run="^TestVerifStoreRace$", extra_env=env2)
+            m2 = re.search(r"storerace ok rounds=(\d+)", out2)
+            ctx.notes.append("store-level sweep race: %s (rc=%d)" % (m2.group(0) if m2 else "no ok line", rc2))
+            if "stress sweeprace:" in out2:
+                i = out2.index("stress sweeprace:")
+                fails.append(("store-level race: " + out2[i:i + 300].splitlines()[0],
+                              "go test -run TestVerifStoreRace with VERIF_STRESS=1\n" + out2[i:i + 1500]))
+            elif rc2 != 0 or not m2:
+                fails.append(("store-level sweep race did not complete (rc=%d)" % rc2, out2[-2000:]))
         pid = self.pid
         return [(f, "# property %s\n# %s\n" % (pid, f) + "".join("# " + l + "\n" for l in b.splitlines())) for f, b in fails]
